@@ -195,7 +195,8 @@ pub fn is_valid_path(path: &str) -> bool {
             // A lone `:` that isn't followed by another `:`
             _ if separators == 1 => return false,
             // The start of an identifier
-            c if separators % 2 == 0 && is_xid_start(c) => {
+            // `_` is not `XID_Start`, but identifiers like `_private` can start with it
+            c if separators % 2 == 0 && (is_xid_start(c) || c == '_') => {
                 separators = 0;
             }
             // The middle of an identifier
